@@ -34,7 +34,7 @@ PLAIN_VALS = ["a", "b c", "é", "x_1", "v1", "Z", "7"]
 
 def budget(tier):
     if tier == "quick":
-        return {"runs": 800, "wall": 50, "chunk": 8}
+        return {"runs": 2400, "wall": 50, "chunk": 8}
     return {"runs": 80000, "wall": 1500, "chunk": 8}
 
 
